@@ -3,6 +3,7 @@
 package gen
 
 import (
+	"encoding/binary"
 	"bytes"
 	"fmt"
 
@@ -62,6 +63,44 @@ func Payload(t *rapid.T, label string, n int) []byte {
 		b[i] = byte(s >> 24)
 	}
 	return b
+}
+
+// ProfilePayload is Payload, except that for n >= 400 half of the payloads are well-formed ICC profiles (v2 or v4
+// description, random flags / intent / creator / ID) of about n bytes, some with a size field that disagrees with
+// the payload length, some followed by trailing bytes or by zero padding that the size field does not count: the
+// embedded bytes are what they are, whatever a profile-aware consumer might think of them.
+func ProfilePayload(t *rapid.T, label string, n int) []byte {
+	if n < 400 || !rapid.Bool().Draw(t, label+"validprofile") {
+		return Payload(t, label, n)
+	}
+	desc := build.TextDesc(fmt.Sprintf("profile-%d", n))
+	if rapid.Bool().Draw(t, label+"v4") {
+		desc = build.Mluc([]build.MlucRec{{Lang: [2]byte{'d', 'e'}, Country: [2]byte{'D', 'E'}, Text: "Profil"}, {Lang: [2]byte{'e', 'n'}, Country: [2]byte{'U', 'S'}, Text: fmt.Sprintf("Profile %d", n)}}, nil, nil, 0)
+	}
+	over := 128 + 4 + 24 + len(desc)
+	if n-over < 8 {
+		return Payload(t, label, n)
+	}
+	p := build.SimpleProfile(desc, n-over)
+	if rapid.Bool().Draw(t, label+"hdrfields") {
+		copy(p[44:48], Payload(t, label+"flags", 4))
+		copy(p[64:68], Payload(t, label+"intent", 4))
+		copy(p[80:84], Payload(t, label+"creator", 4))
+		if rapid.Bool().Draw(t, label+"id") {
+			copy(p[84:100], Payload(t, label+"id", 16))
+		}
+	}
+	switch rapid.IntRange(0, 7).Draw(t, label+"sizefield") {
+	case 0:
+		binary.BigEndian.PutUint32(p, uint32(rapid.IntRange(128, len(p)-1).Draw(t, label+"declared")))
+	case 1:
+		binary.BigEndian.PutUint32(p, uint32(len(p)+rapid.IntRange(1, 1000).Draw(t, label+"declaredmore")))
+	case 2:
+		p = append(p, Payload(t, label+"trailer", rapid.IntRange(1, 64).Draw(t, label+"trailerlen"))...)
+	case 3:
+		p = append(p, make([]byte, rapid.SampledFrom([]int{1, 2, 3, 4, 64}).Draw(t, label+"zeropad"))...) // padding to an alignment
+	}
+	return p
 }
 
 var sizeSpecials = []int{1, 2, 3, 255, 256, 511, 512, 1023, 1024, 2047, 2048, 4095, 4096, 4097, 8191, 8192, 8193, 16383, 16384, 32767, 32768, 65518, 65519, 65520, 65521, 65535, 65536, 65537, 131037, 131038, 131039, 131072, 262144, 1<<20 - 1, 1 << 20}
@@ -239,6 +278,9 @@ func PNG(t *rapid.T, o Opts) File {
 	addAnc := func(i int) {
 		typ, fixed := PNGAncillary(t, "anctype", p.ColorType)
 		ln := chunkLen(t, "anclen", pos, 9000)
+		if rapid.IntRange(0, 11).Draw(t, "bigancillary") == 0 {
+			ln = rapid.IntRange(66000, 200000).Draw(t, "biganclen") // more than any read-ahead allowance
+		}
 		if fixed >= 0 {
 			ln = fixed
 		}
@@ -256,7 +298,8 @@ func PNG(t *rapid.T, o Opts) File {
 				max = 1 << 20
 			}
 			size := ICCSize(t, "iccsize", max)
-			f.ICC = Payload(t, "icc", size)
+			f.ICC = ProfilePayload(t, "icc", size)
+			size = len(f.ICC)
 			f.HasICC = true
 			nameLen := Biased(t, "namelen", 1, 79, 1, 2, 78, 79)
 			name := make([]byte, nameLen)
@@ -371,7 +414,8 @@ func JPEG(t *rapid.T, o Opts) (File, JPEGLayout) {
 			max = 1 << 20
 		}
 		size := ICCSize(t, "iccsize", max)
-		f.ICC = Payload(t, "icc", size)
+		f.ICC = ProfilePayload(t, "icc", size)
+		size = len(f.ICC) // a profile payload may carry trailing bytes beyond the requested size
 		f.HasICC = true
 		// partition into 1..255 chunks of 1..65519 bytes
 		minChunks := (size + 65518) / 65519
@@ -556,7 +600,7 @@ func WebP(t *rapid.T, o Opts) File {
 			if max == 0 {
 				max = 1 << 20
 			}
-			f.ICC = Payload(t, "icc", ICCSize(t, "iccsize", max))
+			f.ICC = ProfilePayload(t, "icc", ICCSize(t, "iccsize", max))
 			f.HasICC = true
 			w.Chunks = append(w.Chunks, build.RIFFChunk{FourCC: "ICCP", Data: f.ICC})
 		}
@@ -581,14 +625,37 @@ func WebP(t *rapid.T, o Opts) File {
 
 // Any draws a file of any of the three formats.
 func Any(t *rapid.T, o Opts) File {
+	var f File
 	switch rapid.IntRange(0, 2).Draw(t, "format") {
 	case 0:
-		return PNG(t, o)
+		f = PNG(t, o)
 	case 1:
-		f, _ := JPEG(t, o)
-		return f
+		f, _ = JPEG(t, o)
+	default:
+		f = WebP(t, o)
 	}
-	return WebP(t, o)
+	return Trailing(t, f)
+}
+
+// Trailing appends, to an eighth of the files, something that follows the image in the stream: zeros, junk, or the
+// first bytes of another image.  Nothing a loader is asked for depends on it.
+func Trailing(t *rapid.T, f File) File {
+	switch rapid.IntRange(0, 23).Draw(t, "trailing") {
+	case 0:
+		f.Data = append(append([]byte(nil), f.Data...), make([]byte, rapid.SampledFrom([]int{1, 2, 100, 5000}).Draw(t, "trailzeros"))...)
+		f.Notes = append(f.Notes, "trailing zeros")
+		f.Desc += " + trailing zeros"
+	case 1:
+		f.Data = append(append([]byte(nil), f.Data...), Payload(t, "trailjunk", rapid.SampledFrom([]int{1, 3, 4096, 9000}).Draw(t, "trailjunklen"))...)
+		f.Notes = append(f.Notes, "trailing junk")
+		f.Desc += " + trailing junk"
+	case 2:
+		f.Data = append(append([]byte(nil), f.Data...), build.PNGSig...)
+		f.Data = append(f.Data, 0, 0, 0, 13, 'I', 'H', 'D', 'R', 0, 0, 0, 9, 0, 0, 0, 9, 8, 2, 0, 0, 0)
+		f.Notes = append(f.Notes, "followed by the start of a PNG")
+		f.Desc += " + the start of a PNG"
+	}
+	return f
 }
 
 var _ = bytes.Equal
